@@ -56,9 +56,6 @@ pub fn inst_ip(idx: usize) -> String {
 pub fn inst_ip_of(idx: usize, item: u8) -> String {
     format!("10.0.{}.{}", idx, item)
 }
-pub fn inst_meta(tag: &str) -> String {
-    format!("{{\"k\":\"sx-{}-i1\"}}", tag)
-}
 pub fn inst_meta_of(tag: &str, item: u8) -> String {
     format!("{{\"k\":\"sx-{}-i{}\"}}", tag, item)
 }
@@ -349,9 +346,33 @@ pub struct Target {
     /// id / first history id of the fixture MCP server of namespace idx (0 = none)
     pub mcp_id: u64,
     pub mcp_hist: u64,
+    /// per-case number that makes the names of case-local services unique: the registry keeps a 30 s
+    /// "drop if still empty" timer per service NAME, and a stale timer of an earlier case would drop a
+    /// freshly re-created empty service of the same name at once
+    pub nonce: u32,
 }
 
 impl Target {
+    pub fn new_svc(&self) -> String {
+        format!("snew{}.wr", self.nonce)
+    }
+    /// service aimed at by "update service": fixture service 2 where the namespace has fixture data, else a
+    /// case-local name (the update creates an empty service there)
+    pub fn upd_svc(&self) -> String {
+        if self.idx < DATA_NS {
+            svc_name(self.tag(), 2)
+        } else {
+            format!("supd{}.wr", self.nonce)
+        }
+    }
+    pub fn del_svc(&self) -> String {
+        format!("sdel{}.wr", self.nonce)
+    }
+    /// case-local service holding TMP_INST: metadata set through the console is remembered per service for an
+    /// instance key even after the instance is gone, so the service is thrown away with the case
+    pub fn tmp_svc(&self) -> String {
+        format!("stmp{}.wr", self.nonce)
+    }
     pub fn tag(&self) -> &'static str {
         NS[self.idx.min(NS.len() - 1)].1
     }
@@ -410,26 +431,20 @@ fn kv(pairs: &[(&str, &str)]) -> Vec<(String, String)> {
 }
 
 pub const NEW_CFG: (&str, &str) = ("G1", "cnew.wr");
-pub const NEW_SVC: &str = "snew.wr";
 pub const NEW_INST: (&str, u32) = ("10.9.9.9", 9090);
 pub const TMP_INST: (&str, u32) = ("10.8.8.8", 8081);
-/// case-local service holding TMP_INST: metadata set through the console is remembered per service for an
-/// instance key even after the instance is gone, so the service is thrown away with the case
-pub const TMP_SVC: &str = "stmp.wr";
-/// case-local empty service for the "delete service" operations (a service with instances cannot be removed)
-pub const DEL_SVC: &str = "sdel.wr";
 
 /// Request the ADMINISTRATOR sends before the case's request so that the operation has something to work on.
 /// Instance update/delete aim at a case-local EPHEMERAL instance: persistent instances are applied locally and
 /// then once more, asynchronously, when their Raft entry is applied, so a delete that follows quickly can be
-/// undone for a moment - state that would leak between cases.  It lives in the case-local service TMP_SVC.
+/// undone for a moment - state that would leak between cases.  It lives in the case-local service `Target::tmp_svc()`.
 pub fn setup(ep: &Ep, t: &Target) -> Option<Req> {
     match ep.id {
         "v1.ns_instance.update" | "v1.ns_instance.delete" | "v2.instance.update" | "v2.instance.delete" => Some(Req::new("POST", "/v2/instance/add").json(json!({
-            "serviceName": TMP_SVC, "namespaceId": NS[t.idx.min(NS.len() - 1)].0, "groupName": "DEFAULT_GROUP",
+            "serviceName": t.tmp_svc(), "namespaceId": NS[t.idx.min(NS.len() - 1)].0, "groupName": "DEFAULT_GROUP",
             "ip": TMP_INST.0, "port": TMP_INST.1, "ephemeral": "true", "weight": 1.0, "enabled": true, "metadata": "{\"k\":\"tmp\"}"}))),
         "v1.ns_service.delete" | "v2.service.delete" => Some(Req::new("POST", "/v2/service/add").json(json!({
-            "serviceName": DEL_SVC, "namespaceId": NS[t.idx.min(NS.len() - 1)].0, "groupName": "DEFAULT_GROUP", "metadata": "{\"k\":\"tmp\"}", "protectThreshold": 0.1}))),
+            "serviceName": t.del_svc(), "namespaceId": NS[t.idx.min(NS.len() - 1)].0, "groupName": "DEFAULT_GROUP", "metadata": "{\"k\":\"tmp\"}", "protectThreshold": 0.1}))),
         _ => None,
     }
 }
@@ -497,16 +512,16 @@ pub fn build(ep: &Ep, t: &Target) -> Req {
             ep,
             t,
             None,
-            kv(&[("serviceName", NEW_SVC), ("groupName", "DEFAULT_GROUP"), ("metadata", "{\"k\":\"written\"}"), ("protectThreshold", "0.3")]),
+            kv(&[("serviceName", &t.new_svc()), ("groupName", "DEFAULT_GROUP"), ("metadata", "{\"k\":\"written\"}"), ("protectThreshold", "0.3")]),
         ),
         "v1.ns_service.update" => set_ns(
             r,
             ep,
             t,
             None,
-            kv(&[("serviceName", &svc_name(tag, 2)), ("groupName", "DEFAULT_GROUP"), ("metadata", "{\"k\":\"updated\"}"), ("protectThreshold", "0.7")]),
+            kv(&[("serviceName", &t.upd_svc()), ("groupName", "DEFAULT_GROUP"), ("metadata", "{\"k\":\"updated\"}"), ("protectThreshold", "0.7")]),
         ),
-        "v1.ns_service.delete" => set_ns(r.q("serviceName", DEL_SVC).q("groupName", "DEFAULT_GROUP"), ep, t, None, vec![]),
+        "v1.ns_service.delete" => set_ns(r.q("serviceName", &t.del_svc()).q("groupName", "DEFAULT_GROUP"), ep, t, None, vec![]),
         "v1.ns_subscribers.list" | "v1.instances.list" | "v2.instance.list" => {
             set_ns(r.q("serviceName", &svc_name(tag, 1)).q("groupName", "DEFAULT_GROUP"), ep, t, None, vec![])
         }
@@ -537,7 +552,7 @@ pub fn build(ep: &Ep, t: &Target) -> Req {
             t,
             None,
             kv(&[
-                ("serviceName", TMP_SVC),
+                ("serviceName", &t.tmp_svc()),
                 ("groupName", "DEFAULT_GROUP"),
                 ("ip", TMP_INST.0),
                 ("port", "8081"),
@@ -547,7 +562,7 @@ pub fn build(ep: &Ep, t: &Target) -> Req {
             ]),
         ),
         "v1.ns_instance.delete" => set_ns(
-            r.q("serviceName", TMP_SVC).q("groupName", "DEFAULT_GROUP").q("ip", TMP_INST.0).q("port", "8081").q("ephemeral", "true"),
+            r.q("serviceName", &t.tmp_svc()).q("groupName", "DEFAULT_GROUP").q("ip", TMP_INST.0).q("port", "8081").q("ephemeral", "true"),
             ep,
             t,
             None,
@@ -558,17 +573,17 @@ pub fn build(ep: &Ep, t: &Target) -> Req {
             r,
             ep,
             t,
-            Some(json!({"serviceName": NEW_SVC, "groupName": "DEFAULT_GROUP", "metadata": "{\"k\":\"written\"}", "protectThreshold": 0.3})),
+            Some(json!({"serviceName": t.new_svc(), "groupName": "DEFAULT_GROUP", "metadata": "{\"k\":\"written\"}", "protectThreshold": 0.3})),
             vec![],
         ),
         "v2.service.update" => set_ns(
             r,
             ep,
             t,
-            Some(json!({"serviceName": svc_name(tag, 2), "groupName": "DEFAULT_GROUP", "metadata": "{\"k\":\"updated\"}", "protectThreshold": 0.7})),
+            Some(json!({"serviceName": t.upd_svc(), "groupName": "DEFAULT_GROUP", "metadata": "{\"k\":\"updated\"}", "protectThreshold": 0.7})),
             vec![],
         ),
-        "v2.service.delete" => set_ns(r, ep, t, Some(json!({"serviceName": DEL_SVC, "groupName": "DEFAULT_GROUP"})), vec![]),
+        "v2.service.delete" => set_ns(r, ep, t, Some(json!({"serviceName": t.del_svc(), "groupName": "DEFAULT_GROUP"})), vec![]),
         "v2.instance.create" => set_ns(
             r,
             ep,
@@ -580,14 +595,14 @@ pub fn build(ep: &Ep, t: &Target) -> Req {
             r,
             ep,
             t,
-            Some(json!({"serviceName": TMP_SVC, "groupName": "DEFAULT_GROUP", "ip": TMP_INST.0, "port": TMP_INST.1, "ephemeral": "true", "weight": 2.0, "metadata": "{\"k\":\"updated\"}"})),
+            Some(json!({"serviceName": t.tmp_svc(), "groupName": "DEFAULT_GROUP", "ip": TMP_INST.0, "port": TMP_INST.1, "ephemeral": "true", "weight": 2.0, "metadata": "{\"k\":\"updated\"}"})),
             vec![],
         ),
         "v2.instance.delete" => set_ns(
             r,
             ep,
             t,
-            Some(json!({"serviceName": TMP_SVC, "groupName": "DEFAULT_GROUP", "ip": TMP_INST.0, "port": TMP_INST.1, "ephemeral": "true"})),
+            Some(json!({"serviceName": t.tmp_svc(), "groupName": "DEFAULT_GROUP", "ip": TMP_INST.0, "port": TMP_INST.1, "ephemeral": "true"})),
             vec![],
         ),
         // ------------------------------------------------ namespaces
